@@ -1722,6 +1722,54 @@ def _raises(stmts):
     return any(isinstance(s, ast.Raise) for s in stmts)
 
 
+def _locals_of(fn):
+    """local variable names of a function (parameters except self, assignment / for / with targets, of nested
+    functions too), in order of first binding"""
+    found = []
+
+    def add(name, pos):
+        if name != "self":
+            found.append((pos, name))
+    for n in ast.walk(fn):
+        if isinstance(n, (ast.FunctionDef, ast.Lambda)):
+            for a in n.args.args + n.args.kwonlyargs:
+                add(a.arg, (a.lineno, a.col_offset))
+        elif isinstance(n, ast.Name) and isinstance(n.ctx, ast.Store):
+            add(n.id, (n.lineno, n.col_offset))
+    out = []
+    for _, name in sorted(found):
+        if name not in out:
+            out.append(name)
+    return out
+
+
+def _alpha(fn):
+    """text normaliser that replaces the function's local variable names by v0, v1, … (order of first binding), so that
+    anchors on statement text do not depend on how locals are called"""
+    names = _locals_of(fn)
+    if not names:
+        return lambda t: t
+    rx = re.compile(r"(?<![\.\w\"'])(%s)(?![\w\"'])" % "|".join(re.escape(x) for x in sorted(names, key=len, reverse=True)))
+    return lambda t: rx.sub(lambda m: "v%d" % names.index(m.group(1)), t)
+
+
+
+def _sum_loop(src, fn):
+    """`acc = 0; for k in list(self.X): acc += self.X[k]` with free names: returns (X, acc) or (None, None)"""
+    for n in ast.walk(fn):
+        if isinstance(n, ast.For) and len(n.body) == 1 and isinstance(n.body[0], ast.AugAssign) \
+                and isinstance(n.body[0].op, ast.Add) and isinstance(n.body[0].target, ast.Name) and isinstance(n.target, ast.Name):
+            m = re.fullmatch(r"self\.(\w+)\[(\w+)\]", _norm(src, n.body[0].value))
+            it = re.fullmatch(r"list\(self\.(\w+)\)", _norm(src, n.iter))
+            acc = n.body[0].target.id
+            init = [a for a in fn.body if isinstance(a, ast.Assign) and getattr(a.targets[0], "id", "") == acc
+                    and isinstance(a.value, ast.Constant) and a.value.value == 0]
+            if m and it and m.group(1) == it.group(1) and m.group(2) == n.target.id and init:
+                return m.group(1), acc
+    return None, None
+
+
+
 @group
 def gen_Network(repo):
     net = PySrc(repo, "src/strengths/rdnetwork.py")
@@ -1739,21 +1787,12 @@ def gen_Network(repo):
                 call = n.value
         if call is None or call.args or sorted(k.arg for k in call.keywords) != ["quantity", "space", "time"]:
             raise AnchorLost("rdnetwork.py:%s return UnitsDimensions(space=,time=,quantity=)" % fname)
-        tr = ExprTr(net, {"count": "count"})
-        dims[fname] = {k.arg: tr.tr(k.value) for k in call.keywords}
-        # what is summed: `count += self._X[k]` inside `for k in list(self._X)`
-        o = None
-        for n in ast.walk(fn):
-            if isinstance(n, ast.For) and len(n.body) == 1 and isinstance(n.body[0], ast.AugAssign) \
-                    and isinstance(n.body[0].op, ast.Add) and getattr(n.body[0].target, "id", "") == "count":
-                m = re.fullmatch(r"self\.(\w+)\[k\]", _norm(net, n.body[0].value))
-                it = re.fullmatch(r"list\(self\.(\w+)\)", _norm(net, n.iter))
-                if m and it and m.group(1) == it.group(1):
-                    o = m.group(1)
-        init = [n for n in fn.body if isinstance(n, ast.Assign) and getattr(n.targets[0], "id", "") == "count"
-                and isinstance(n.value, ast.Constant) and n.value.value == 0]
-        if o is None or not init:
+        # what is summed: `acc += self._X[k]` inside `for k in list(self._X)`, `acc = 0` before (names free)
+        o, accname = _sum_loop(net, fn)
+        if o is None:
             raise AnchorLost("rdnetwork.py:%s count loop" % fname)
+        tr = ExprTr(net, {accname: "count"})
+        dims[fname] = {k.arg: tr.tr(k.value) for k in call.keywords}
         over[fname] = o
     if dims["kf_units_dimensions"] != dims["kr_units_dimensions"]:
         raise AnchorLost("rdnetwork.py: kf/kr_units_dimensions formulas differ")
@@ -1795,6 +1834,8 @@ def gen_Network(repo):
 
     # ---- _fromstring: separators, side count, token lengths
     fs = net.func("_fromstring", "Reaction")
+    al = _alpha(fs)
+    NA = lambda node: re.sub(r"\s+", "", al(net.seg(node)))   # statement text with locals renamed v0, v1, …
     seps = []
     for n in ast.walk(fs):
         if isinstance(n, ast.Call) and isinstance(n.func, ast.Attribute) and n.func.attr == "split" and len(n.args) == 1:
@@ -1804,7 +1845,7 @@ def gen_Network(repo):
     for n in ast.walk(fs):
         if isinstance(n, ast.Compare) and isinstance(n.left, ast.Call) and getattr(n.left.func, "id", "") == "len" \
                 and isinstance(n.comparators[0], ast.Constant):
-            lens.append((n.lineno, n.col_offset, "%s%s%d" % (_norm(net, n.left), {ast.Eq: "==", ast.NotEq: "!="}.get(type(n.ops[0]), "?"),
+            lens.append((n.lineno, n.col_offset, "%s%s%d" % (NA(n.left), {ast.Eq: "==", ast.NotEq: "!="}.get(type(n.ops[0]), "?"),
                                                                 n.comparators[0].value)))
     lens = [s for _, _, s in sorted(lens)]
     if not seps or not lens:
@@ -1815,19 +1856,26 @@ def gen_Network(repo):
     # the accumulation `if d.get(label, None) == None : d[label] = coef  else : d[label] += coef`
     acc = None
     for n in ast.walk(fs):
-        if isinstance(n, ast.If) and _norm(net, n.test) == "d.get(label,None)==None" and len(n.body) == 1 and len(n.orelse) == 1:
-            acc = (_norm(net, n.body[0]), _norm(net, n.orelse[0]))
+        t = n.test if isinstance(n, ast.If) else None
+        if t is not None and isinstance(t, ast.Compare) and len(t.ops) == 1 and isinstance(t.ops[0], ast.Eq) \
+                and isinstance(t.left, ast.Call) and getattr(t.left.func, "attr", "") == "get" and len(t.left.args) == 2 \
+                and isinstance(t.comparators[0], ast.Constant) and t.comparators[0].value is None \
+                and len(n.body) == 1 and len(n.orelse) == 1:
+            acc = (NA(n.body[0]), NA(n.orelse[0]))
     if acc is None:
         raise AnchorLost("rdnetwork.py:_fromstring repeated-label accumulation")
     L.append("def eqAccumulate : String × String := (%s, %s)" % (lean_str(acc[0]), lean_str(acc[1])))
-    coef = [(_norm(net, n)) for n in ast.walk(fs) if isinstance(n, ast.Assign) and _norm(net, n.targets[0]) in ("coef", "coef,label")]
+    coef = [NA(n) for n in ast.walk(fs) if isinstance(n, ast.Assign) and (
+        (isinstance(n.value, ast.Tuple) and all(isinstance(e, ast.Constant) for e in n.value.elts)) or
+        (isinstance(n.value, ast.Call) and getattr(n.value.func, "id", "") == "int"))]
     L.append("def eqCoefAssigns : List String := %s\n" % lean_list([lean_str(s) for s in coef]))
 
     # ---- to_string: the text pieces
     ts = net.func("to_string", "Reaction")
     L.append("/-- string constants of `Reaction.to_string` in source order -/")
     L.append("def toStringConsts : List String := %s" % lean_list([lean_str(s) for s in _string_consts(ts)]))
-    tests = [(n.lineno, _norm(net, n.test)) for n in ast.walk(ts) if isinstance(n, ast.If)]
+    alts = _alpha(ts)
+    tests = [(n.lineno, re.sub(r"\s+", "", alts(net.seg(n.test)))) for n in ast.walk(ts) if isinstance(n, ast.If)]
     L.append("def toStringTests : List String := %s\n" % lean_list([lean_str(s) for _, s in sorted(tests)]))
 
     # ---- ssto / psto / dsto / order / rorder
@@ -1836,23 +1884,19 @@ def gen_Network(repo):
         for n in ast.walk(fn):
             if isinstance(n, ast.Return) and isinstance(n.value, ast.ListComp):
                 lc = n.value
-                if len(lc.generators) != 1 or _norm(net, lc.generators[0].iter) != "species_labels" or lc.generators[0].ifs:
-                    raise AnchorLost("rdnetwork.py:%s comprehension over species_labels" % fname)
-                return lc.elt
+                if len(lc.generators) != 1 or _norm(net, lc.generators[0].iter) != fn.args.args[1].arg or lc.generators[0].ifs \
+                        or not isinstance(lc.generators[0].target, ast.Name):
+                    raise AnchorLost("rdnetwork.py:%s comprehension over its label-list parameter" % fname)
+                return lc.elt, lc.generators[0].target.id
         raise AnchorLost("rdnetwork.py:%s return [.. for s in species_labels]" % fname)
-    nm = {"int(self._substrates.get(s,0))": "sub", "int(self._products.get(s,0))": "prod"}
     L.append("/-- entries of `ssto`, `psto`, `dsto` for one species (sub / prod = its coefficient in the two dictionaries) -/")
     for fname in ("ssto", "psto", "dsto"):
-        L.append("def %sEntry (sub prod : Int) : Int := %s" % (fname, ExprTr(net, nm).tr(ret_listcomp(fname))))
+        elt, var = ret_listcomp(fname)
+        nm = {"int(self._substrates.get(%s,0))" % var: "sub", "int(self._products.get(%s,0))" % var: "prod"}
+        L.append("def %sEntry (sub prod : Int) : Int := %s" % (fname, ExprTr(net, nm).tr(elt)))
     for fname in ("order", "rorder"):
         fn = net.func(fname, "Reaction")
-        o = None
-        for n in ast.walk(fn):
-            if isinstance(n, ast.For) and len(n.body) == 1 and isinstance(n.body[0], ast.AugAssign) and isinstance(n.body[0].op, ast.Add):
-                m = re.fullmatch(r"self\.(\w+)\[k\]", _norm(net, n.body[0].value))
-                it = re.fullmatch(r"list\(self\.(\w+)\)", _norm(net, n.iter))
-                if m and it and m.group(1) == it.group(1):
-                    o = m.group(1)
+        o, _acc = _sum_loop(net, fn)
         if o is None:
             raise AnchorLost("rdnetwork.py:%s sum loop" % fname)
         L.append("def %sOver : String := %s" % (fname, lean_str(o)))
@@ -1873,8 +1917,10 @@ def gen_Network(repo):
 
     # ---- equilibrium_constant: the ratio expressions and the zero tests
     ec = net.func("equilibrium_constant", "Reaction")
-    divs = sorted((n.lineno, _norm(net, n)) for n in ast.walk(ec) if isinstance(n, ast.BinOp) and isinstance(n.op, ast.Div))
-    zeros = sorted((n.lineno, _norm(net, n.test)) for n in ast.walk(ec) if isinstance(n, ast.If) and "value==0" in _norm(net, n.test))
+    alec = _alpha(ec)
+    NE = lambda node: re.sub(r"\s+", "", alec(net.seg(node)))
+    divs = sorted((n.lineno, NE(n)) for n in ast.walk(ec) if isinstance(n, ast.BinOp) and isinstance(n.op, ast.Div))
+    zeros = sorted((n.lineno, NE(n.test)) for n in ast.walk(ec) if isinstance(n, ast.If) and "value==0" in _norm(net, n.test))
     if not divs or not zeros:
         raise AnchorLost("rdnetwork.py:equilibrium_constant ratio / zero test")
     L.append("def kRatios : List String := %s" % lean_list([lean_str(s) for _, s in divs]))
@@ -1883,12 +1929,13 @@ def gen_Network(repo):
     # ---- RDNetwork.environments setter: empty list and the reserved name
     es = setter("RDNetwork", "environments")
     empty, reserved = False, None
+    envparam = es.args.args[1].arg
     for n in ast.walk(es):
         if isinstance(n, ast.If) and _raises(n.body):
             t = _norm(net, n.test)
-            if t == "len(environments)==0":
+            if t == "len(%s)==0" % envparam:
                 empty = True
-            m = re.fullmatch(r"e==\"(\w+)\"", t)
+            m = re.fullmatch(r"\w+==\"(\w+)\"", t)
             if m:
                 reserved = m.group(1)
     if not empty or reserved is None:
@@ -1899,14 +1946,16 @@ def gen_Network(repo):
 
     # ---- _assert_validity: the three raise conditions (normalised text)
     av = net.func("_assert_validity", "RDNetwork")
-    conds = sorted((n.lineno, _norm(net, n.test)) for n in ast.walk(av) if isinstance(n, ast.If) and _raises(n.body))
+    alav = _alpha(av)
+    conds = sorted((n.lineno, re.sub(r"\s+", "", alav(net.seg(n.test)))) for n in ast.walk(av) if isinstance(n, ast.If) and _raises(n.body))
     if len(conds) < 4:
         raise AnchorLost("rdnetwork.py:_assert_validity raise conditions")
     L.append("def validityRaiseConds : List String := %s\n" % lean_list([lean_str(s) for _, s in conds]))
 
     # ---- label rules
-    al = vp.func("assert_string_is_a_valid_label")
-    tests = sorted((n.lineno, _norm(vp, n.test)) for n in ast.walk(al) if isinstance(n, ast.If) and _raises(n.body))
+    al_fn = vp.func("assert_string_is_a_valid_label")
+    allab = _alpha(al_fn)
+    tests = sorted((n.lineno, re.sub(r"\s+", "", allab(vp.seg(n.test)))) for n in ast.walk(al_fn) if isinstance(n, ast.If) and _raises(n.body))
     if not tests:
         raise AnchorLost("value_processing.py:assert_string_is_a_valid_label tests")
     L.append("/-- raise conditions of `assert_string_is_a_valid_label` (per character `c` of the label) -/")
@@ -1950,7 +1999,10 @@ def _membership_lists(src, fn, var):
 
 
 def _raise_tests(src, fn):
-    return [s for _, s in sorted((n.lineno, _norm(src, n.test)) for n in ast.walk(fn) if isinstance(n, ast.If) and _raises(n.body))]
+    """tests that guard a raise, in order, with the function's locals renamed v0, v1, … (independent of their names)"""
+    al = _alpha(fn)
+    return [s for _, s in sorted((n.lineno, re.sub(r"\s+", "", al(src.seg(n.test)))) for n in ast.walk(fn)
+                                 if isinstance(n, ast.If) and _raises(n.body))]
 
 
 def _mandatory_keys(src, fn):
@@ -2041,7 +2093,8 @@ def gen_Validation(repo):
     for n in ast.walk(pk):
         if isinstance(n, ast.If) and any(isinstance(b, ast.If) and _raises(b.body) for b in n.body):
             inner = [b for b in n.body if isinstance(b, ast.If) and _raises(b.body)][0]
-            tests.append((n.lineno, _norm(vp, n.test), _norm(vp, inner.test)))
+            alpk = _alpha(pk)
+            tests.append((n.lineno, re.sub(r"\s+", "", alpk(vp.seg(n.test))), re.sub(r"\s+", "", alpk(vp.seg(inner.test)))))
     tests = sorted(tests)
     if len(tests) != 2 or dflt != ["error"]:
         raise AnchorLost("value_processing.py:process_input_dict_keys raise sites / default policy")
@@ -2103,8 +2156,9 @@ def gen_Validation(repo):
     ce = _class_func(grid, "RDGridSpace", "cell_env", setter=True)
     lt = None
     for n in ast.walk(ce):
-        if isinstance(n, ast.If) and _raises(n.body) and "len(v)" in _norm(grid, n.test):
-            lt = ExprTr(grid, {"len(v)": "len", "self.size()": "size"}).tr(n.test)
+        cepar = ce.args.args[1].arg
+        if isinstance(n, ast.If) and _raises(n.body) and ("len(%s)" % cepar) in _norm(grid, n.test):
+            lt = ExprTr(grid, {"len(%s)" % cepar: "len", "self.size()": "size"}).tr(n.test)
     if lt is None:
         raise AnchorLost("rdgridspace.py:cell_env setter length test")
     L.append("/-- `RDGridSpace.cell_env` setter (array form): raises when -/")
@@ -2113,13 +2167,21 @@ def gen_Validation(repo):
     # ---- graph index test, species / reaction / environment index tests
     gci = _class_func(graph, "RDGraphSpace", "get_cell_index")
     gt = [n for n in gci.body if isinstance(n, ast.If) and _raises(n.body)]
-    if len(gt) != 1:
+    # the local that holds `int(<position parameter>)`, whatever it is called
+    gpos = gci.args.args[1].arg
+    gloc = [n.targets[0].id for n in gci.body if isinstance(n, ast.Assign) and isinstance(n.targets[0], ast.Name)
+            and _norm(graph, n.value) == "int(%s)" % gpos]
+    if len(gt) != 1 or len(gloc) != 1:
         raise AnchorLost("rdgraphspace.py:get_cell_index range test")
     L.append("/-- `RDGraphSpace.get_cell_index`: raises when -/")
-    L.append("def graphNodeIndexBad (size i : Int) : Bool := %s" % ExprTr(graph, {"cell_index": "i", "self.size()": "size"}).tr(gt[0].test))
+    L.append("def graphNodeIndexBad (size i : Int) : Bool := %s" % ExprTr(graph, {gloc[0]: "i", "self.size()": "size"}).tr(gt[0].test))
     chk = _class_func(graph, "RDGraphSpace", "check")
-    et = [ExprTr(graph, {"edge.i": "i", "edge.j": "i", "self.size()": "size"}).tr(n.test) for n in ast.walk(chk)
-          if isinstance(n, ast.If) and _raises(n.body) and "self.size()" in _norm(graph, n.test)]
+    et = []
+    for lp in ast.walk(chk):
+        if isinstance(lp, ast.For) and isinstance(lp.target, ast.Name) and _norm(graph, lp.iter) == "self.edges":
+            ev = lp.target.id
+            et += [ExprTr(graph, {ev + ".i": "i", ev + ".j": "i", "self.size()": "size"}).tr(n.test) for n in ast.walk(lp)
+                   if isinstance(n, ast.If) and _raises(n.body) and "self.size()" in _norm(graph, n.test)]
     if len(et) != 2 or et[0] != et[1]:
         raise AnchorLost("rdgraphspace.py:check edge index tests")
     L.append("def edgeIndexBad (size i : Int) : Bool := %s" % et[0])
@@ -2132,9 +2194,12 @@ def gen_Validation(repo):
                 first = st
                 break
         inner = [b for b in first.body if isinstance(b, ast.If)] if first is not None else []
-        if first is None or not _norm(net, first.test).startswith("isnumber(") or len(inner) != 1:
+        ipar = fn.args.args[1].arg
+        iloc = [n.targets[0].id for n in (first.body if first is not None else []) if isinstance(n, ast.Assign)
+                and isinstance(n.targets[0], ast.Name) and _norm(net, n.value) == "int(%s)" % ipar]
+        if first is None or _norm(net, first.test) != "isnumber(%s)" % ipar or len(inner) != 1 or len(iloc) != 1:
             raise AnchorLost("rdnetwork.py:%s number branch" % fname)
-        L.append("def %s (n i : Int) : Bool := %s" % (lean, ExprTr(net, {"index": "i", cnt: "n"}).tr(inner[0].test)))
+        L.append("def %s (n i : Int) : Bool := %s" % (lean, ExprTr(net, {iloc[0]: "i", cnt: "n"}).tr(inner[0].test)))
     L.append("")
 
     # ---- named dimensions and the dimension every quantity field demands
@@ -2187,7 +2252,8 @@ def gen_Validation(repo):
     sv = _class_func(units, "UnitArray", "set_value")
     keeps_objects = any(isinstance(n, ast.Call) and _norm(units, n.func) == "np.array" and
                         any(k.arg == "dtype" and _norm(units, k.value) == "object" for k in n.keywords) for n in ast.walk(sv))
-    str_tests = [_norm(units, n.test) for n in ast.walk(sv) if isinstance(n, ast.If) and "str" in _norm(units, n.test)]
+    alsv = _alpha(sv)
+    str_tests = [re.sub(r"\s+", "", alsv(units.seg(n.test))) for n in ast.walk(sv) if isinstance(n, ast.If) and "str" in _norm(units, n.test)]
     if not str_tests:
         raise AnchorLost("units.py:UnitArray.set_value text item test")
     L.append("/-- `UnitArray.set_value`: the test that recognises text items, and whether the items keep their Python type -/")
@@ -2201,7 +2267,7 @@ def gen_Validation(repo):
         m = None
         for n in ast.walk(fn):
             if isinstance(n, ast.If) and _raises(n.body):
-                mm = re.fullmatch(r"notvin_units_labels_dict\[\"(\w+)\"\]", _norm(units, n.test))
+                mm = re.fullmatch(r"not%sin_units_labels_dict\[\"(\w+)\"\]" % re.escape(fn.args.args[1].arg), _norm(units, n.test))
                 if mm:
                     m = mm.group(1)
         if m is None:
@@ -2214,8 +2280,9 @@ def gen_Validation(repo):
         rows = []
         for nm in names:
             fn = _class_func(src, cls, nm)
+            params = tuple(a.arg for a in fn.args.args[1:])
             g = any(isinstance(n, ast.Call) and _norm(src, n.func) in ("self.get_cell_index", "self.is_within_bounds")
-                    and n.args and _norm(src, n.args[0]).startswith(("position", "cell_index")) for n in ast.walk(fn))
+                    and n.args and _norm(src, n.args[0]) in params for n in ast.walk(fn))
             rows.append((nm, g))
         return rows
     acc = ["get_cell_env", "get_cell_vol", "get_neighbors", "are_neighbors"]
@@ -2233,7 +2300,8 @@ def gen_Validation(repo):
 
     sset = _class_func(rds, "RDSystem", "space", setter=True)
     env_checked = any(isinstance(n, ast.If) and _raises(n.body) and "nenvironments()" in _norm(rds, n.test) for n in ast.walk(sset))
-    env_test = [ _norm(rds, n.test) for n in ast.walk(sset) if isinstance(n, ast.If) and _raises(n.body) and "nenvironments()" in _norm(rds, n.test)]
+    alss = _alpha(sset)
+    env_test = [re.sub(r"\s+", "", alss(rds.seg(n.test))) for n in ast.walk(sset) if isinstance(n, ast.If) and _raises(n.body) and "nenvironments()" in _norm(rds, n.test)]
     L.append("/-- does the `RDSystem.space` setter compare the cells' environment indices with the number of environments? -/")
     L.append("def systemSpaceChecksEnv : Bool := %s" % ("true" if env_checked else "false"))
     L.append("def systemSpaceEnvTests : List String := %s\n" % lean_list([lean_str(t) for t in env_test]))
@@ -2246,7 +2314,7 @@ def gen_Validation(repo):
     codes = []
     for fname in ("_setup_graph", "_setup_grid"):
         fn = _class_func(lre, "LibRDEngine", fname)
-        codes.append([t for t in _raise_tests(lre, fn) if t.startswith("res==")])
+        codes.append([re.sub(r"^v\d+", "res", t) for t in _raise_tests(lre, fn) if re.fullmatch(r"v\d+==\d+", t)])
     if not codes[0] or codes[0] != codes[1]:
         raise AnchorLost("librdengine.py: error codes of engineexport_initialize_* turned into exceptions")
     L.append("/-- `LibRDEngine._setup_grid/_setup_graph`: return codes of the native initialisation that raise -/")
@@ -2903,5 +2971,203 @@ def gen_EngineLife(repo):
     L.append("def engineNewSites : List String := %s" % strs(news))
     st = [_lf_norm(x) for x in re.findall(r"(global_space_type\s*=\s*\d+\s*;)", eng)]
     L.append("def engineSpaceTypeAssigns : List String := %s" % strs(st))
+    L.append("\nend Strengths.Gen")
+    return "\n".join(L) + "\n"
+
+
+# =============================================================================================
+# Stoch (builder "stoch": C07, C02, C14): the statement lists of the stochastic / Euler step functions of
+# the six algorithms and the two base classes, GenerateStochasticDistribution, the init-state dispatch
+# of engine.cpp, the Poisson/normal switch, and the Python-side accepted modes / default.
+# =============================================================================================
+def _cpp_stmts(body):
+    """normalised statement list of a C++ block: blanks removed, split at ';', '{', '}' (kept)"""
+    stmts, cur, par = [], "", 0
+    for ch in body:
+        if ch == "(":
+            par += 1
+        elif ch == ")":
+            par -= 1
+        if ch in "{}" and par == 0:
+            if cur.strip():
+                stmts.append(re.sub(r"\s+", "", cur))
+            cur = ""
+            stmts.append(ch)
+        elif ch == ";" and par == 0:
+            stmts.append(re.sub(r"\s+", "", cur))
+            cur = ""
+        else:
+            cur += ch
+    if cur.strip():
+        stmts.append(re.sub(r"\s+", "", cur))
+    return [s for s in stmts if s]
+
+
+def _balanced(text, i):
+    """text[i] == '{' -> index of the matching '}'"""
+    depth, j = 0, i
+    while j < len(text):
+        if text[j] == "{":
+            depth += 1
+        elif text[j] == "}":
+            depth -= 1
+            if depth == 0:
+                return j
+        j += 1
+    raise AnchorLost("unbalanced braces")
+
+
+@group
+def gen_Stoch(repo):
+    def strs(l):
+        return lean_list([lean_str(x) for x in l])
+    L = ["namespace Strengths.Gen\n"]
+    eng = _cpp(repo, "engine.cpp")
+
+    # ---- GenerateStochasticDistribution
+    body = cpp_function_body(eng, r"GenerateStochasticDistribution\s*\([^)]*\)\s*")
+    stm = _cpp_stmts(body)
+    m = re.search(r"if\s*\(\s*mesh_x\[i\]\s*<\s*([0-9.eE+-]+)\s*\)", body)
+    if not m:
+        raise AnchorLost("GenerateStochasticDistribution Poisson/normal switch")
+    L.append("/-- `GenerateStochasticDistribution`: below this amount an entry is a Poisson draw, from it on a floored normal draw -/")
+    L.append("def poissonNormalSwitch : Rat := %s" % lean_rat(Fraction(m.group(1))))
+    L.append("/-- `GenerateStochasticDistribution`, whole body as a normalised statement list -/")
+    L.append("def gsdBody : List String := %s" % strs(stm))
+    # the draw target and the scan of the correction loop
+    m = re.search(r"double\s+target\s*=\s*([^;]+);", body)
+    if not m:
+        raise AnchorLost("GenerateStochasticDistribution target")
+    L.append("def gsdTarget : String := %s" % lean_str(re.sub(r"\s+", "", m.group(1))))
+    m = re.search(r"cumul\s*\+=\s*mesh_x\[([^\]]+)\]\s*;\s*if\s*\(([^)]*)\)", body)
+    if not m:
+        raise AnchorLost("GenerateStochasticDistribution scan")
+    nm = {"i": "i", "s": "s", "n_species": "ns"}
+    L.append("/-- index of entry (cell i, species s) in the cell-major arrays of `GenerateStochasticDistribution` -/")
+    L.append("def gsdIndex (ns s i : Int) : Int := %s" % CppExpr(m.group(1), nm).parse())
+    L.append("def gsdHitCond : String := %s\n" % lean_str(re.sub(r"\s+", "", m.group(2))))
+
+    # ---- init-state dispatch: (condition, statements of the branch) in order, then the else branch
+    for tag, fr in (("Grid", r"int\s+engineexport_initialize_grid\s*\("), ("Graph", r"int\s+engineexport_initialize_graph\s*\(")):
+        b = cpp_function_body(eng, fr)
+        pos = b.find("is_stochastic")
+        if pos < 0:
+            raise AnchorLost("engine.cpp is_stochastic " + tag)
+        m = re.search(r"bool\s+is_stochastic\s*=\s*([^;]+);", b)
+        if not m:
+            raise AnchorLost("engine.cpp is_stochastic definition " + tag)
+        L.append("def isStochasticDef%s : String := %s" % (tag, lean_str(re.sub(r"\s+", "", m.group(1)))))
+        branches = []
+        cur = m.end()
+        while True:
+            mm = re.compile(r"\s*(?:else\s+)?if\s*\(").match(b, cur)
+            if not mm:
+                break
+            # balanced parenthesis of the condition
+            i = mm.end() - 1
+            depth, j = 0, i
+            while True:
+                if b[j] == "(":
+                    depth += 1
+                elif b[j] == ")":
+                    depth -= 1
+                    if depth == 0:
+                        break
+                j += 1
+            cond = re.sub(r"\s+", "", b[i + 1:j])
+            k = b.index("{", j)
+            e = _balanced(b, k)
+            branches.append((cond, _cpp_stmts(b[k + 1:e])))
+            cur = e + 1
+        mm = re.compile(r"\s*else\s*\{").match(b, cur)
+        if not mm or not branches:
+            raise AnchorLost("engine.cpp init_state_processing dispatch " + tag)
+        e = _balanced(b, mm.end() - 1)
+        branches.append(("else", _cpp_stmts(b[mm.end():e])))
+        if not all("init_state_processing" in c for c, _ in branches[:-1]):
+            raise AnchorLost("engine.cpp init_state_processing dispatch conditions " + tag)
+        L.append("/-- the `init_state_processing` dispatch: (condition, statements) per branch, `else` last -/")
+        L.append("def initBranches%s : List (String × List String) := %s" %
+                 (tag, lean_list(["(%s, %s)" % (lean_str(c), strs(s)) for c, s in branches])))
+        # what Init receives as the state
+        mi = re.search(r"global_(?:grid|graph)_algo\s*->\s*Init\s*\(", b)
+        if not mi:
+            raise AnchorLost("engine.cpp Init call " + tag)
+        args = b[mi.end():]
+        L.append("def initPassesMeshX%s : Bool := %s" % (tag, "true" if re.search(r"\bmesh_x\s*,", args) else "false"))
+    L.append("")
+
+    # ---- step functions of the algorithms (normalised statement lists)
+    def fn_stmts(fname, regex):
+        return _cpp_stmts(cpp_function_body(_cpp(repo, fname), regex))
+    items = [
+        ("reactionProp", r"double\s+ReactionProp\s*\([^)]*\)\s*", "SimulationAlgorithm3DBase.hpp", "SimulationAlgorithmGraphBase.hpp"),
+        ("diffusionProp", r"double\s+DiffusionProp\s*\([^)]*\)\s*", "SimulationAlgorithm3DBase.hpp", "SimulationAlgorithmGraphBase.hpp"),
+        ("diffusionRate", r"double\s+DiffusionRate\s*\([^)]*\)\s*", "SimulationAlgorithm3DBase.hpp", "SimulationAlgorithmGraphBase.hpp"),
+        ("diffusionRateDifference", r"double\s+DiffusionRateDifference\s*\([^)]*\)\s*", "SimulationAlgorithm3DBase.hpp", "SimulationAlgorithmGraphBase.hpp"),
+        ("reactionRate", r"double\s+ReactionRate\s*\([^)]*\)\s*", "SimulationAlgorithm3DBase.hpp", "SimulationAlgorithmGraphBase.hpp"),
+        ("poissonFn", r"int\s+Poisson\s*\([^)]*\)\s*", "SimulationAlgorithm3DBase.hpp", "SimulationAlgorithmGraphBase.hpp"),
+        ("buildMeshKr", r"void\s+Build_mesh_kr\s*\([^)]*\)\s*", "SimulationAlgorithm3DBase.hpp", "SimulationAlgorithmGraphBase.hpp"),
+        ("buildMeshKd", r"void\s+Build_mesh_kd\s*\([^)]*\)\s*", "SimulationAlgorithm3DBase.hpp", "SimulationAlgorithmGraphBase.hpp"),
+        ("computePropensities", r"void\s+ComputePropensities\s*\(\s*\)\s*", "Gillespie3D.hpp", "GillespieGraph.hpp"),
+        ("applyReaction", r"void\s+ApplyReaction\s*\([^)]*\)\s*", "Gillespie3D.hpp", "GillespieGraph.hpp"),
+        ("applyDiffusion", r"void\s+ApplyDiffusion\s*\([^)]*\)\s*", "Gillespie3D.hpp", "GillespieGraph.hpp"),
+        ("drawAndApplyEvent", r"void\s+DrawAndApplyEvent\s*\(\s*\)\s*", "Gillespie3D.hpp", "GillespieGraph.hpp"),
+        ("computeNevt", r"void\s+Compute_nevt\s*\(\s*\)\s*", "TauLeap3D.hpp", "TauLeapGraph.hpp"),
+        ("applyNevt", r"void\s+Apply_nevt\s*\(\s*\)\s*", "TauLeap3D.hpp", "TauLeapGraph.hpp"),
+        ("computeDxdt", r"void\s+Compute_dxdt\s*\(\s*\)\s*", "Euler3D.hpp", "EulerGraph.hpp"),
+        ("applyDxdt", r"void\s+Apply_dxdt\s*\(\s*\)\s*", "Euler3D.hpp", "EulerGraph.hpp"),
+    ]
+    for name, rx, f3, fg in items:
+        L.append("def %sGrid : List String := %s" % (name, strs(fn_stmts(f3, rx))))
+        L.append("def %sGraph : List String := %s" % (name, strs(fn_stmts(fg, rx))))
+    L.append("def setNeighborsGraph : List String := %s" %
+             strs(fn_stmts("SimulationAlgorithmGraphBase.hpp", r"void\s+SetNeighbors\s*\([^)]*\)\s*")))
+    # rng / uniform set-up in Init (seeded from the argument, uniform on [0,1))
+    for tag, fname in (("Grid", "SimulationAlgorithm3DBase.hpp"), ("Graph", "SimulationAlgorithmGraphBase.hpp")):
+        t = _cpp(repo, fname)
+        m1 = re.search(r"this->rng\s*=\s*([^;]+);", t)
+        m2 = re.search(r"this->uiud\s*=\s*([^;]+);", t)
+        if not m1 or not m2:
+            raise AnchorLost("rng / uiud set-up in Init " + tag)
+        L.append("def rngInit%s : List String := %s" % (tag, strs([re.sub(r"\s+", "", m1.group(1)), re.sub(r"\s+", "", m2.group(1))])))
+    L.append("")
+
+    # ---- Python side: accepted modes, default, how the mode reaches the engine
+    src = PySrc(repo, "src/strengths/rdscript.py")
+    setter = None
+    for n in ast.walk(src.tree):
+        if isinstance(n, ast.FunctionDef) and n.name == "init_state_processing" and len(n.args.args) == 2:
+            setter = n
+    if setter is None:
+        raise AnchorLost("rdscript.py:init_state_processing setter")
+    modes = None
+    for n in ast.walk(setter):
+        if isinstance(n, ast.Compare) and len(n.ops) == 1 and isinstance(n.ops[0], (ast.NotIn, ast.In)) \
+                and isinstance(n.comparators[0], (ast.List, ast.Tuple)):
+            modes = str_list(n.comparators[0])
+            # must be `if not x in [...] : raise`  or  `if x not in [...] : raise`
+    if modes is None:
+        raise AnchorLost("rdscript.py:init_state_processing accepted list")
+    raises = any(isinstance(n, ast.Raise) for n in ast.walk(setter))
+    L.append("/-- `RDScript.init_state_processing` setter: accepted values (anything else raises) -/")
+    L.append("def pyInitModes : List String := %s" % strs(modes))
+    L.append("def pyInitModesGuarded : Bool := %s" % ("true" if raises else "false"))
+    init = src.func("__init__", cls="RDScript")
+    default = None
+    args = init.args
+    names = [a.arg for a in args.args]
+    defaults = [None] * (len(names) - len(args.defaults)) + list(args.defaults)
+    for nme, dflt in zip(names, defaults):
+        if nme == "init_state_processing" and dflt is not None:
+            default = const_str(dflt)
+    if default is None:
+        raise AnchorLost("rdscript.py:RDScript.__init__ default of init_state_processing")
+    L.append("def pyInitModeDefault : String := %s" % lean_str(default))
+    lre = PySrc(repo, "src/strengths/librdengine.py")
+    passed = re.findall(r"ctypes\.c_char_p\(\s*script\.init_state_processing\.encode\(\)\s*\)", lre.text)
+    L.append("/-- number of `engineexport_initialize_*` calls that pass `script.init_state_processing` unchanged -/")
+    L.append("def pyInitModePassed : Nat := %d" % len(passed))
+    # engine_collection: which options require molecules (quantity unit forced to 'molecule')
     L.append("\nend Strengths.Gen")
     return "\n".join(L) + "\n"
